@@ -8,11 +8,17 @@
    What is covered: secret availability for every revoked number of a 2^B-long history (B = 48 in
    the code), retention of the per-commitment HTLC data under pruning, completeness of the claim
    set, progress of the bump timer, monotonicity / BIP-125 compliance of `feerate_bump`.
+   Second half (Model/JusticeChain.lean, height expressions TRANSLATED into Generated/Justice.lean on every run): the claims
+   while the chain is RE-ORGANISED — over ALL sequences of block connections / disconnections / rebroadcasts / reloads a
+   consistent chain can produce: every claim records the confirmation height of the transaction whose output it spends, is
+   dropped exactly when that transaction is disconnected, is pending for as long as its output exists unspent (by a final
+   spend) on the best chain, is re-issued at every height-timer expiry, and the drain theorem for histories with reorgs.
    What is NOT formalised (validated by the c06justice run with libbitcoinconsensus): key
    derivation, script/witness construction, OnchainTxHandler package aggregation and splitting. -/
 import LdkModel.Props.C05
 import LdkModel.Proofs.Punish
 import LdkModel.Proofs.Package
+import LdkModel.Proofs.JusticeChain
 namespace Ldk.C06
 open Ldk Ldk.Secrets Ldk.Punish Ldk.Pkg
 
@@ -320,5 +326,235 @@ example : feerateBump 1000 1500 546 1000 .forceBump 253 = none := by decide
 -- division makes the re-derived feerate 0
 example : feerateBump 1 100000 546 1000 .forceBump 253 = some (1, 1000) := by decide
 example : feerateBump 3 100000 546 1000 .forceBump 253 = some (3, 1000) := by decide
+
+/-! ## Re-organisations: the claims of Model/JusticeChain.lean over ALL chain histories -/
+
+section Reorg
+open Ldk.Justice Ldk.JusticeGen
+
+/-- **creation_height_is_confirmation_height** — about the expressions TRANSLATED from the Rust source
+    (check_spend_counterparty_transaction / check_spend_counterparty_htlc call sites, RevokedOutput::build /
+    RevokedHTLCOutput::build, update_claims_view_from_requests): for ALL heights, CSV delays and HTLC data, the
+    `outpoint_confirmation_height` handed to every justice package — on the revoked commitment's to_local, on each of its HTLC
+    outputs, on the output of a second-stage transaction — is the height of the block that confirms the transaction whose
+    output the claim spends; it is stored and read back unchanged, so that is the `creation_height` registered in
+    `claimable_outpoints`. -/
+theorem creation_height_is_confirmation_height (h csv : Nat) (offered : Bool) (cltv : Nat) :
+    toLocalCreationHeight h csv = h ∧ htlcCreationHeight h csv offered cltv = h ∧ secondStageCreationHeight h csv = h ∧
+    (∀ c conf, registeredCreationHeight (revokedOutputStored c) conf = c) ∧
+    (∀ c conf, registeredCreationHeight (revokedHtlcOutputStored c) conf = c) ∧
+    (∀ (W : World) (kd : Kind), creationHeight W kd h = h) := by
+  refine ⟨rfl, rfl, rfl, fun _ _ => rfl, fun _ _ => rfl, fun W kd => creationHeight_eq W kd h⟩
+
+/-- **disconnect_rule** — the translated retain condition of `OnchainTxHandler::blocks_disconnected`: an entry of
+    `claimable_outpoints` (and its whole request) is removed iff its creation height is above the new tip; an awaiting
+    `Claim` / `ContentiousOutpoint` event is undone iff its height is above the new tip; events mature after
+    ANTI_REORG_DELAY − 1 further blocks; both disconnect paths of the monitor hand the new tip height on unchanged and
+    `transaction_unconfirmed` of a transaction confirmed at `h` acts like a disconnection down to `h − 1`. -/
+theorem disconnect_rule (created s n h : Nat) :
+    (claimDropped created n = true ↔ n < created) ∧ (awaitingDropped s n = true ↔ n < s) ∧
+    (handlerThresholdReached s h = true ↔ s + ANTI_REORG_DELAY - 1 ≤ h) ∧
+    monitorDisconnectNewBest n = n ∧ unconfirmedNewBest h = h - 1 :=
+  ⟨claimDropped_iff created n, awaitingDropped_iff s n, reached_iff s h, rfl, rfl⟩
+
+/-- **justice_claim_pending** — for EVERY world (claimable outputs, second-stage transactions, CSV), EVERY start height and
+    EVERY history of block connections (with any consistent mix of the cheater's commitment / second-stage transactions and
+    the victim's justice transactions, in any blocks), disconnections of any depth and fork point (that do not undo a
+    transaction with ANTI_REORG_DELAY confirmations), rebroadcasts and reloads: for every claimable output `X` of a
+    transaction that is confirmed on the best chain at height `hp`, either `X` is spent by a FINAL (ANTI_REORG_DELAY-deep)
+    transaction, or a justice claim for `X` is pending whose recorded creation height is `hp` and whose awaiting-spend
+    marker agrees with the chain. -/
+theorem justice_claim_pending (W : World) (h0 : Nat) (ops : List Op) (st : St) (hrun : run W (St.init h0) ops = some st)
+    (X : Outpoint) (hk : (W.kindOf X).isSome) (hp : Nat) (hconf : st.chain.conf (parentOf X) = some hp) :
+    (∃ sp, st.chain.spent X = some sp ∧ sp.final = true) ∨
+    (∃ c, st.claim X = some c ∧ c.created = hp ∧ c.spentAt = (st.chain.spent X).map (·.height)) := by
+  have hi := inv_run ops (inv_init W h0) hrun
+  rcases hi.cover X hk (by rw [hconf]; rfl) with hcl | hfin
+  · right
+    obtain ⟨c, hc⟩ := Option.isSome_iff_exists.1 hcl
+    have h1 := (hi.created X c hc).2
+    rw [hconf] at h1
+    exact ⟨c, hc, (Option.some.inj h1).symm, (hi.spent X c hc).1⟩
+  · left; exact hfin
+
+/-- **claim_survives_reorg** — in every reachable state, for every disconnection the model accepts (any depth): a pending
+    claim survives iff the transaction whose output it spends is still confirmed — and then with the same creation height —
+    and is dropped iff that transaction was disconnected (`conf = none` ⟺ it was confirmed above the new tip).  Nothing
+    else can drop a claim at a disconnection. -/
+theorem claim_survives_reorg (W : World) (h0 : Nat) (ops : List Op) (st : St) (hrun : run W (St.init h0) ops = some st)
+    (n : Nat) (st' : St) (bc : List Outpoint) (hd : disconnect W st n = some (st', bc))
+    (X : Outpoint) (c : Claim) (hc : st.claim X = some c) :
+    (st'.chain.conf (parentOf X) = none ↔ n < c.created) ∧
+    ((st'.chain.conf (parentOf X)).isSome → ∃ c', st'.claim X = some c' ∧ c'.created = c.created) ∧
+    (st'.chain.conf (parentOf X) = none → st'.claim X = none) := by
+  have hi := inv_run ops (inv_init W h0) hrun
+  have hcr := (hi.created X c hc).2
+  obtain ⟨_, _, _, rfl⟩ := disconnect_some hd
+  simp only [hcr]
+  by_cases hlt : n < c.created
+  · rw [if_pos hlt]
+    refine ⟨Iff.intro (fun _ => hlt) (fun _ => rfl), ?_, ?_⟩
+    · intro h; cases h
+    · intro _; exact afterDisconnect_dropped hc hlt
+  · rw [if_neg hlt]
+    refine ⟨Iff.intro (fun h => by cases h) (fun h => absurd h hlt), ?_, ?_⟩
+    · intro _; exact afterDisconnect_kept hc (by omega)
+    · intro h; cases h
+
+/-- **reissued_at_timer_expiry** — in every reachable state, for every block the model accepts: after the block every claim
+    without a confirmed spend has its height timer strictly in the future; and if the claim is new, or its timer had
+    expired (`timer ≤` the new height, the code's `cur_height >= request.timer()`), then its outpoint is among those the
+    victim's broadcasts of this block spend and its next timer is at most LOW_FREQUENCY_BUMP_INTERVAL blocks away (the
+    bounds of the TRANSLATED `get_height_timer`, `bump_progress`). -/
+theorem reissued_at_timer_expiry (W : World) (h0 : Nat) (ops : List Op) (st : St) (hrun : run W (St.init h0) ops = some st)
+    (txs : List BTx) (st' : St) (bc : List Outpoint) (hc : connect W st txs = some (st', bc))
+    (X : Outpoint) (c' : Claim) (hx : st'.claim X = some c') (hs : c'.spentAt = none) :
+    st'.chain.tip < c'.timer ∧
+    ((st.claim X = none ∨ ∃ c, st.claim X = some c ∧ c.timer ≤ st'.chain.tip) →
+        X ∈ bc ∧ c'.timer ≤ st'.chain.tip + LOW_FREQUENCY_BUMP_INTERVAL) :=
+  connect_reissue (inv_run ops (inv_init W h0) hrun) hc X c' hx hs
+
+/-- **rebroadcast_reissues_every_pending_claim** — `rebroadcast_pending_claims` is always possible, changes nothing in the
+    bookkeeping, and spends every claimed outpoint that has no confirmed spend; a disconnection never postpones a timer
+    (a claim whose confirmed spend is undone is due at once). -/
+theorem rebroadcast_reissues_every_pending_claim (W : World) (h0 : Nat) (ops : List Op) (st : St)
+    (hrun : run W (St.init h0) ops = some st) :
+    step W st .rebroadcast = some (st, active W st) ∧
+    (∀ X c, st.claim X = some c → c.spentAt = none → X ∈ active W st) ∧
+    (∀ n st' bc, disconnect W st n = some (st', bc) → ∀ X c', st'.claim X = some c' →
+        ∃ c, st.claim X = some c ∧ c'.timer ≤ c.timer) := by
+  have hi := inv_run ops (inv_init W h0) hrun
+  refine ⟨rfl, fun X c hc hs => active_mem hi hc hs, ?_⟩
+  intro n st' bc hd X c' hx
+  obtain ⟨_, _, _, rfl⟩ := disconnect_some hd
+  obtain ⟨c, hc, _, _, hcase⟩ := afterDisconnect_some hx
+  refine ⟨c, hc, ?_⟩
+  rcases hcase with ⟨_, _, _, _, ht⟩ | ⟨rfl, _⟩
+  · omega
+  · exact Nat.le_refl _
+
+/-- **revoked_fully_punished_after_reorgs** — the punishment theorem for histories WITH reorgs.  After ANY history the model
+    accepts (see `justice_claim_pending`), let the miners confirm one block containing the justice transaction(s) the victim
+    currently has pending — spending exactly the outpoints `rebroadcast_pending_claims` re-issues — and ANTI_REORG_DELAY − 1
+    further blocks.  That continuation is always accepted (every pending claim spends an existing, unspent output), it does
+    not touch the cheater's transactions, afterwards NOTHING is pending, and every claimable output of every transaction of
+    the cheater that is confirmed on the best chain is spent by a FINAL transaction which is the victim's — or is the
+    cheater's confirmed second-stage transaction, every claimable output of which is in turn finally spent by the victim.
+    (The cheater can spend a to_local / second-stage output itself only after the CSV delay: consensus, see `assumptions`.) -/
+theorem revoked_fully_punished_after_reorgs (W : World) (h0 : Nat) (ops : List Op) (st : St)
+    (hrun : run W (St.init h0) ops = some st) :
+    ∃ st', run W st (.connect [.justice (active W st)] :: List.replicate (ANTI_REORG_DELAY - 1) (.connect [])) = some st' ∧
+      st'.chain.conf = st.chain.conf ∧ (∀ X, st'.claim X = none) ∧
+      ∀ X, (W.kindOf X).isSome → (st'.chain.conf (parentOf X)).isSome →
+        ∃ sp, st'.chain.spent X = some sp ∧ sp.final = true ∧
+          (sp.byVictim = true ∨
+           ∃ k v, X = .commit v ∧ v ∈ W.second k ∧ (st'.chain.conf (.second k)).isSome ∧
+             ∀ i, (W.kindOf (.second k i)).isSome →
+               ∃ sp2, st'.chain.spent (.second k i) = some sp2 ∧ sp2.final = true ∧ sp2.byVictim = true) := by
+  have hi := inv_run ops (inv_init W h0) hrun
+  obtain ⟨st', hr, hi', hconf, hnone⟩ := drain_all hi
+  refine ⟨st', hr, hconf, hnone, ?_⟩
+  have hfin : ∀ X, (W.kindOf X).isSome → (st'.chain.conf (parentOf X)).isSome →
+      ∃ sp, st'.chain.spent X = some sp ∧ sp.final = true := by
+    intro X hk hc
+    rcases hi'.cover X hk hc with hcl | h
+    · rw [hnone X] at hcl; cases hcl
+    · exact h
+  intro X hk hc
+  obtain ⟨sp, hs, hf⟩ := hfin X hk hc
+  refine ⟨sp, hs, hf, ?_⟩
+  cases hb : sp.byVictim with
+  | true => left; rfl
+  | false =>
+    right
+    obtain ⟨k, v, hx, hv, hck⟩ := hi'.cheater X sp hs hb
+    refine ⟨k, v, hx, hv, by rw [hck]; rfl, ?_⟩
+    intro i hki
+    obtain ⟨sp2, hs2, hf2⟩ := hfin (.second k i) hki (by simp only [parentOf, hck]; rfl)
+    refine ⟨sp2, hs2, hf2, ?_⟩
+    cases hb2 : sp2.byVictim with
+    | true => rfl
+    | false =>
+      obtain ⟨_, _, hx2, _, _⟩ := hi'.cheater _ sp2 hs2 hb2
+      cases hx2
+
+variable {S : Type} [DecidableEq S]
+
+omit [DecidableEq S] in
+private theorem notSpent_nil (X : Outpoint) : notSpent [] X = true := by
+  cases X <;> simp [notSpent]
+
+/-- **world_covers_every_revoked_output** — the chain theorems above are about the RIGHT set of outputs: for every channel
+    history (as in `revoked_fully_claimed`), every revoked commitment `j` of it and every list `held` of second-stage
+    transactions the cheater holds, the world `World.ofMonitor` (what the monitor model of Model/Punish.lean claims) makes
+    every to_local / HTLC output of the revoked commitment claimable, every output of every held second-stage transaction
+    claimable, and nothing else on the commitment (not the victim's to_remote, not an anchor). -/
+theorem world_covers_every_revoked_output (P : Secrets.Params S) (seed : S) (specs : List Spec) (pending : Option Spec)
+    (hlen : specs.length + (if pending.isSome then 1 else 0) ≤ 2 ^ P.B) (j : Nat) (hj : j + 1 < specs.length)
+    (sp : Spec) (hsp : specs[j]? = some sp) (held : List (List Nat)) (csv : Nat) :
+    let m := monitorAfter P seed (specs.map Spec.body) (pending.map Spec.body)
+    let n := numberOf P j
+    let b := sp.body
+    let W := World.ofMonitor P m n (b.tx (secretOf P seed n)) held csv
+    (∀ i sat k, b.outputs[i]? = some (sat, k) → k = .toLocal ∨ k = .htlc → (W.kindOf (.commit i)).isSome) ∧
+    (∀ k t p, held[k]? = some t → p < t.length → (W.kindOf (.second k p)).isSome) ∧
+    (∀ i, (W.kindOf (.commit i)).isSome → ∃ sat k, b.outputs[i]? = some (sat, k) ∧ (k = .toLocal ∨ k = .htlc)) ∧
+    W.seconds = held := by
+  intro m n b W
+  have hall : W.allOutpoints = onConfirmRevoked P m n (b.tx (secretOf P seed n)) ++ allSecondClaims 0 held :=
+    ofMonitor_allOutpoints P m n _ held csv
+  obtain ⟨hdirect, hcov, _, honly⟩ := revoked_fully_claimed P seed specs pending hlen j hj sp hsp []
+  obtain ⟨hsec, _⟩ := revoked_secret_available_in_monitor P seed (specs.map Spec.body) (pending.map Spec.body)
+    (by cases pending <;> simp at hlen ⊢ <;> omega) j (by simpa using hj)
+  have hpun : punish P m n (b.tx (secretOf P seed n)) [] = onConfirmRevoked P m n (b.tx (secretOf P seed n)) := by
+    have hs : Secrets.getSecret P m.store n = some (secretOf P seed n) := hsec
+    simp only [punish, hs, allSecondClaims, List.append_nil]
+    exact List.filter_eq_self.2 (fun X _ => notSpent_nil X)
+  refine ⟨?_, ?_, ?_, rfl⟩
+  · intro i sat k hget hk
+    apply mem_kindOf_isSome
+    rw [hall, List.mem_append]
+    left
+    rcases hcov i sat k hget hk with hm | ⟨t, ht, _⟩
+    · rw [← hpun]; exact hm
+    · cases ht
+  · intro k t p hget hp
+    apply mem_kindOf_isSome
+    rw [hall, List.mem_append]
+    right
+    exact (mem_allSecondClaims 0 held _).2 ⟨k, p, t, by simp, hget, hp⟩
+  · intro i hk
+    have hm := kindOf_isSome_mem hk
+    rw [hall, List.mem_append] at hm
+    rcases hm with hm | hm
+    · exact honly i (by rw [hpun]; exact hm)
+    · exact absurd hm (commit_not_mem_allSecondClaims 0 held i)
+
+/-! ### Non-vacuity of the chain part (sanity runs of the executable model, not the claim) -/
+
+-- to_local = output 1, an offered HTLC = output 0 (its second-stage transaction S0 spends it), CSV 144
+def W0 : World :=
+  { outs := [(.commit 1, .toLocal), (.commit 0, .htlc true 500), (.second 0 0, .secondStage)], seconds := [[0]], csv := 144 }
+def created (r : Option St) (X : Outpoint) : Option Nat := r.bind fun st => (st.claim X).map (·.created)
+def awaiting (r : Option St) (X : Outpoint) : Option (Option Nat) := r.bind fun st => (st.claim X).map (·.spentAt)
+-- the commitment confirms at 101, S0 at 102, one more block
+def hist0 : List Op := [.connect [.commit], .connect [.second 0], .connect []]
+example : created (run W0 (St.init 100) hist0) (.commit 1) = some 101 ∧ created (run W0 (St.init 100) hist0) (.second 0 0) = some 102 ∧
+    awaiting (run W0 (St.init 100) hist0) (.commit 0) = some (some 102) := by decide
+-- a reorg ABOVE S0 (the seeded C06-a history) keeps the second-stage claim, with its creation height
+example : created (run W0 (St.init 100) (hist0 ++ [.disconnect 102, .connect []])) (.second 0 0) = some 102 := by decide
+-- a reorg BELOW S0 drops it and un-spends the HTLC output, whose claim is due again
+example : created (run W0 (St.init 100) (hist0 ++ [.disconnect 101])) (.second 0 0) = none ∧
+    awaiting (run W0 (St.init 100) (hist0 ++ [.disconnect 101])) (.commit 0) = some none := by decide
+-- a reorg below the commitment drops everything; re-confirmation (one block later) regenerates the claims at the new height
+example : created (run W0 (St.init 100) (hist0 ++ [.disconnect 100])) (.commit 1) = none ∧
+    created (run W0 (St.init 100) (hist0 ++ [.disconnect 100, .connect [], .connect [.commit, .second 0]])) (.commit 1) = some 102 := by decide
+-- inconsistent blocks are rejected: a second-stage transaction without the commitment, a double spend, a too-deep reorg
+example : (run W0 (St.init 100) [.connect [.second 0]]).isNone ∧
+    (run W0 (St.init 100) [.connect [.commit], .connect [.justice [.commit 0]], .connect [.second 0]]).isNone ∧
+    (run W0 (St.init 100) ([.connect [.commit], .connect [.justice [.commit 0, .commit 1]]] ++ List.replicate 5 (.connect []) ++ [.disconnect 101])).isNone := by decide
+-- re-issue: the broadcast list of a block names the new claims; 15 blocks later the to_local claim is re-issued
+example : (step W0 (St.init 100) (.connect [.commit])).map (·.2) = some [.commit 1, .commit 0] := by decide
+end Reorg
 
 end Ldk.C06
